@@ -214,7 +214,7 @@ class ArrayHistory(Engine):
     # ------------------------------------------------------------------ run
     def run(self, scenario, sandbox, emit):
         darr = import_darr()
-        st = _State(self, darr, sandbox, emit, set(scenario.get('oracles', self.oracles)))
+        st = self.state_cls(self, darr, sandbox, emit, set(scenario.get('oracles', self.oracles)))
         viol = None
         try:
             for idx, op in enumerate(scenario['ops']):
@@ -770,3 +770,6 @@ class _State:
             lk = leaks(self.path)
             if lk:
                 raise Viol('leak', lk[0][0], str(lk[:4]))
+
+
+ArrayHistory.state_cls = _State
